@@ -326,6 +326,46 @@ def okPreds : CPreds → Bool
   | .cons w w1 e w2 t => okWs w && okWs w1 && okAt 0 e && okWs w2 && okPreds t
 end
 
+/-! ### nesting depth of `Expr` (parentheses, predicates, function arguments): what `MAX_EXPR_DEPTH` limits -/
+mutual
+def CX.nest : CX → Nat
+  | .chain _ f r => max f.nest r.nest
+  | .unary _ e => e.nest
+  | .union f r => max f.nest r.nest
+  | .pathF f => f.nest
+  | .pathFR f _ _ _ rel => max f.nest rel.nest
+  | .pathAbs _ _ rel => rel.nest
+  | .pathRel rel => rel.nest
+  | .pathRoot => 0
+  | .filter p preds => max p.nest preds.nest
+  | .var _ => 0
+  | .paren _ e _ => e.nest + 1
+  | .lit _ _ => 0
+  | .num _ => 0
+  | .call _ _ _ args _ => args.nest
+def CXTail.nest : CXTail → Nat
+  | .nil => 0
+  | .cons _ _ _ e t => max e.nest t.nest
+def CArgs.nest : CArgs → Nat
+  | .none => 0
+  | .some f r => max (f.nest + 1) r.nest
+def CArgTail.nest : CArgTail → Nat
+  | .nil => 0
+  | .cons _ _ e t => max (e.nest + 1) t.nest
+def CRel.nest : CRel → Nat
+  | .mk f r => max f.nest r.nest
+def CRelTail.nest : CRelTail → Nat
+  | .nil => 0
+  | .cons _ _ _ s t => max s.nest t.nest
+def CStep.nest : CStep → Nat
+  | .dot => 0
+  | .dotdot => 0
+  | .full _ _ _ preds => preds.nest
+def CPreds.nest : CPreds → Nat
+  | .nil => 0
+  | .cons _ _ e _ t => max (e.nest + 1) t.nest
+end
+
 /-- a whole expression -/
 def CX.ok (e : CX) : Bool := okAt 0 e
 
